@@ -23,10 +23,10 @@ ASSUMPTIONS = [
     "maturity thresholds are read from that season's crop object",
 ]
 FLOORS = {
-    "quick": {"steps": 40000, "window_classes": 60, "season_jumps": 60, "end_by_date": 50,
+    "quick": {"harvest_date_checks": 1, "table_rows_unexecuted_checked": 1, "steps": 40000, "window_classes": 60, "season_jumps": 60, "end_by_date": 50,
               "end_by_harvest": 50, "ends_mature": 200, "ends_dead": 5, "ends_harvest_date": 10,
               "stepped_runs": 50, "plantings": 300},
-    "thorough": {"steps": 400000, "window_classes": 120, "season_jumps": 600, "end_by_date": 500,
+    "thorough": {"harvest_date_checks": 1, "table_rows_unexecuted_checked": 1, "steps": 400000, "window_classes": 120, "season_jumps": 600, "end_by_date": 500,
                  "end_by_harvest": 500, "ends_mature": 2000, "ends_dead": 50, "ends_harvest_date": 100,
                  "stepped_runs": 500, "plantings": 3000},
 }
